@@ -25,7 +25,12 @@ CFG = {
             "1..n+1, absent and 10001 (quick samples the limits of collections above 20 names); names are abstracted "
             "to their rank in String order (the judge checks the order with str_ltb) and the model's codec writes the "
             "same JSON, so tokens are compared byte for byte; the evidence counts the observed tokens containing "
-            "'-' or '_'. Observed per page: item keys, token presence, "
+            "'-' or '_'. long-name cases: collections of 6 short names plus one or a few names of 320..420 bytes "
+            "(a token can be issued iff the name is at most 329 bytes ascending / 328 descending: lengths 327..331, "
+            "352, 420, ASCII and 2/3/4-byte fills, sorted first / in the middle / last, several long names, only "
+            "long names), both orders, every limit 1..n+1 and absent: a page that ends on a name whose token "
+            "cannot be issued must be answered with an explicit error status (the tree answers 500) after every "
+            "earlier page was delivered intact - an early end without token is a violation. Observed per page: item keys, token presence, "
             "token bytes (all pages of scans up to 12 pages, else the first three and last two). Non-trivial: every "
             "scan; distinct by (order, keys, limit).",
     "exhaustive_note": "small scope is complete: all sizes 0..40 x all limits 1..42 (and absent) x both orders, "
@@ -48,6 +53,10 @@ CFG = {
     "assumptions": [
         "the collection does not change during a scan (the property's premise); the harness swaps the collection "
         "only between scans",
+        "where an item's selector is too large for a token the property's conclusion cannot hold; the judge then "
+        "admits exactly one alternative to a complete scan: an explicit 4xx/5xx for the request whose page would end "
+        "on that item, all earlier pages correct (C15_scan_done_is_complete / C15_scan_failure_is_explicit prove "
+        "this of the model without the tokens_fit premise)",
         "every token of a scan fits under the 512-byte bound: premise tokens_fit of the theorems (sufficient: "
         "envelope <= 384 bytes, C15_tokens_fit_sufficient); for {order, last: u64} the envelope is at most 76 bytes",
         "page_max_nitems = 10000 and page_default_nitems = 100 are fixed by server.rs; the theorems hold for every "
@@ -60,7 +69,9 @@ CFG = {
                 "orders, every client limit (absent or >= 1) and every 1 <= default <= max: the scan terminates "
                 "within |coll|+2 requests and never fails, the concatenation of the pages is the collection in "
                 "scan order (each item exactly once), no page exceeds min(limit,max)/default, a page carries a "
-                "token iff it is non-empty, and the scan takes ceil(|coll|/eff)+1 requests. Premises explicit "
+                "token iff it is non-empty, and the scan takes ceil(|coll|/eff)+1 requests; without the "
+                "premise that tokens fit: a scan that ends is still complete, and the only other outcome is an "
+                "explicit 500 at the page whose token cannot be issued. Premises explicit "
                 "(envelope round-trip contract, tokens fit under 512 bytes - shown satisfiable). Kernel-checked, "
                 "closed assumptions. Correspondence: full scans over HTTP against a real server compared page by "
                 "page (items, token presence, token bytes) with the model's scan evaluated in Coq; small scope "
